@@ -110,3 +110,48 @@ Theorem absolute_of_reparse dbg hp hpo hd b u : Fixpoint_of_reparse dbg hp hpo h
   parse_url dbg hp hpo hd None (Some b) (utf8_lossy (ser u)) = POk u.
 Proof. intros H S. unfold Fixpoint_of_reparse, reparse in H. rewrite (abs_dispatch dbg hp hpo hd None) by exact S. exact H. Qed.
 
+
+(* ---------- the shape without the edge premise: trimming cannot reach "scheme://" ---------- *)
+Lemma drop_while_app_stop f a c b : f c = false -> drop_while f (a ++ c :: b) = drop_while f a ++ c :: b.
+Proof.
+  intros Hc. induction a as [|x a IH]; cbn [app drop_while].
+  - rewrite Hc. reflexivity.
+  - destruct (f x); [exact IH | reflexivity].
+Qed.
+
+Lemma trim_c0_keeps_front X rest :
+  match X with [] => True | c :: _ => is_c0_or_space c = false end ->
+  exists rest', input_new_trim_c0 (X ++ 47 :: rest) = X ++ 47 :: rest'.
+Proof.
+  intros HX. unfold input_new_trim_c0, trim_matches.
+  rewrite (drop_while_first_ok _ (X ++ 47 :: rest)) by (destruct X; [reflexivity | exact HX]).
+  rewrite rev_app_distr. cbn [rev]. rewrite <- app_assoc. cbn [app].
+  rewrite drop_while_app_stop by reflexivity.
+  exists (rev (drop_while is_c0_or_space (rev rest))).
+  rewrite rev_app_distr. cbn [rev]. rewrite rev_involutive, <- app_assoc. reflexivity.
+Qed.
+
+Theorem abs_shape_slashes_any sch rest : scheme_canon sch = true ->
+  abs_shape (sch ++ 58 :: 47 :: 47 :: rest) = true.
+Proof.
+  intros Hs. unfold abs_shape.
+  assert (match sch ++ [58; 47] with [] => True | c :: _ => is_c0_or_space c = false end) as HX.
+  { unfold scheme_canon in Hs. apply andb_true_iff in Hs. destruct Hs as [Hh _].
+    destruct sch as [|c s]; [discriminate|]. cbn [app]. unfold is_lower, is_c0_or_space in *. lia. }
+  destruct (trim_c0_keeps_front (sch ++ [58; 47]) rest HX) as [rest' E].
+  rewrite <- !app_assoc in E. cbn [app] in E. rewrite E.
+  rewrite parse_scheme_canon by exact Hs.
+  destruct (scheme_type_of sch).
+  - reflexivity.
+  - pose proof (count_two_slashes rest'). lia.
+  - reflexivity.
+Qed.
+
+(* the absolute law for every fixpoint of re-parsing whose text is  scheme "://" anything:
+   C02's L3 for URLs with authority is ALL that is missing for them *)
+Theorem absolute_of_reparse_auth dbg hp hpo hd b u sch rest :
+  Fixpoint_of_reparse dbg hp hpo hd u -> utf8_lossy (ser u) = sch ++ 58 :: 47 :: 47 :: rest -> scheme_canon sch = true ->
+  parse_url dbg hp hpo hd None (Some b) (utf8_lossy (ser u)) = POk u.
+Proof.
+  intros H E Hs. apply absolute_of_reparse; [exact H|]. rewrite E. apply abs_shape_slashes_any. exact Hs.
+Qed.
